@@ -250,6 +250,8 @@ impl IndexTable {
 	}
 
 	fn chunk_at(index: u64, map: &memmap2::MmapMut) -> Result<&Chunk> {
+		#[cfg(pdb_verif)]
+		crate::verif::touch_read(48 + (index as usize % 8));
 		let offset = META_SIZE + index as usize * CHUNK_LEN;
 		let ptr = unsafe { &*(map[offset..offset + CHUNK_LEN].as_ptr() as *const Chunk) };
 		Ok(try_io!(Ok(ptr)))
@@ -553,6 +555,8 @@ impl IndexTable {
 		let mut mask_buf = [0u8; 8];
 		log.read(&mut mask_buf)?;
 		let mut mask = u64::from_le_bytes(mask_buf);
+		#[cfg(pdb_verif)]
+		crate::verif::touch_write(48 + (index as usize % 8));
 		while mask != 0 {
 			let i = mask.trailing_zeros();
 			mask &= !(1 << i);
